@@ -354,7 +354,14 @@ impl Sender {
             }
             2 => {
                 let size = draw_chunk_size(ctx, k.edge_cfg);
-                let ts = ctx.ch.draw("op.arg.cts", 3) as u32 * 1000;
+                let ts = match ctx.ch.weighted("op.arg.cts", &[4, 2, 2, 1, 1, 1]) {
+                    0 => 0,
+                    1 => 1000,
+                    2 => 2000,
+                    3 => 0xFF_FFFF,
+                    4 => 0x100_0000,
+                    _ => ctx.ch.draw("op.arg.ctsv", 1 << 32) as u32,
+                };
                 ctx.tr(|| format!("  op SetChunkSize size={} ts={}", size, ts));
                 ctx.ev(11, size as u64, ts as u64);
                 ctx.sched(0, 2, Ctx::bucket_len(size as usize));
